@@ -12,6 +12,7 @@ inductive ParseRes
   | empty
   | labels (ls : List Label)
   | featExc (e : Exc)
+  | flatExc (e : Exc)
 
 def getExc (j : Json) : Except String Exc := do
   let n ← getName (← j.getObjVal? "exc")
@@ -28,7 +29,7 @@ def getCleanRes (j : Json) : Except String (Except Exc DB.Name) :=
     let e ← getExc j
     pure (.error e)
 
-/-- `{"exc": name, "caught": bool}` | `{"empty": true}` | `{"labels": […]}` | `{"features_exc": {...}}` -/
+/-- `{"exc": name, "caught": bool}` | `{"empty": true}` | `{"labels": […]}` | `{"features_exc": {...}}` | `{"flatten_exc": {...}}` -/
 def getParseRes (j : Json) : Except String (Except Exc ParseRes) :=
   match j.getObjVal? "labels" with
   | .ok l => do
@@ -42,9 +43,14 @@ def getParseRes (j : Json) : Except String (Except Exc ParseRes) :=
       | .ok fe => do
         let e ← getExc fe
         pure (.ok (.featExc e))
-      | .error _ => do
-        let e ← getExc j
-        pure (.error e)
+      | .error _ =>
+        match j.getObjVal? "flatten_exc" with
+        | .ok fe => do
+          let e ← getExc fe
+          pure (.ok (.flatExc e))
+        | .error _ => do
+          let e ← getExc j
+          pure (.error e)
 
 def lookupD {β : Type} (t : List (DB.Name × β)) (k : DB.Name) (dflt : β) : β :=
   (get? t k).getD dflt
@@ -57,9 +63,13 @@ def mkExt (cleanT : List (DB.Name × Except Exc DB.Name)) (prepT : List (DB.Name
     prepare := fun s => lookupD prepT s s
     parse := fun src => lookupD parseT src (.ok .empty)
     isEmpty := fun t => match t with | .empty => true | _ => false
+    flatten := fun _ t => match t with
+      | .flatExc e => .error e
+      | _ => .ok ()
     features := fun _ t => match t with
       | .labels ls => .ok ls
       | .featExc e => .error e
+      | .flatExc _ => .ok []
       | .empty => .ok [] }
 
 def readExt (j : Json) : Except String (Ext ParseRes) := do
